@@ -17,7 +17,7 @@ CLAIMS = {
    "Trusted: go/types constant evaluation, go/ssa, the abstract interpreter. Declined: string-level inverse law (trailing slashes, percent-escapes, path/filepath host dependence); survival of an explicitly set actor collection through Of().",
    "constant-table agreement + abstract interpretation (SCCP) of the name->field switches", "3/C15"),
  "C01": ("other",
-   "Decides that the three hand-written per-field tables agree for every (type, field) of the 14 vocabulary structs and the 3 tagged sub-structs: struct tag (declared term) vs JSON writer (prop-writer call sites whose value derives from the field, by SSA provenance) vs JSON reader (stores into the field fed by fastjson key lookups, via getter summaries): written at all, under its term, not under a sign-sensitive/inverted emptiness guard, read from its term and nothing else, every emitted key consumed, loaders read the same document, scalar helpers inverse by construction (bool unquoted, float shortest-round-trip, duration xsd both ways). ~3000 obligations, exhaustive over tagged fields. This is a necessary condition of the round-trip property per field (breaking a table entry drops/renames/moves the property for every value); value equality after a real round trip is NOT decided.",
+   "Decides that the three hand-written per-field tables agree for every (type, field) of the 14 vocabulary structs and the 3 tagged sub-structs: struct tag (declared term) vs JSON writer (prop-writer call sites whose value derives from the field, by SSA provenance) vs JSON reader (stores into the field fed by fastjson key lookups, via getter summaries): written at all, under its term, not under a sign-sensitive/inverted emptiness guard, read from its term and nothing else, every emitted key consumed, loaders read the same document, scalar helpers inverse by construction (bool unquoted, float shortest-round-trip, duration xsd both ways); a property is not written under a guard that looks at only some of its own sub-fields; and (W-lost, by the path-sensitive grammar interpreter of C02) no encoder returns nothing on a path on which it has already written a property. ~3070 obligations, exhaustive over tagged fields. This is a necessary condition of the round-trip property per field (breaking a table entry drops/renames/moves the property for every value); value equality after a real round trip is NOT decided.",
    "Trusted: go/types, go/ssa, apcheck prov.go/tables.go, fastjson accessors look up exactly the keys given. Declined: time-zone normalisation, list compaction, nested composition, text escaping (C06).",
    "cross-table agreement by SSA provenance slicing (tag vs writer vs reader), exhaustive over struct fields", "3/C01"),
  "C03": ("other",
@@ -77,17 +77,17 @@ CLAIMS = {
    "Trusted: go/ssa, effects.go, the reviewed dependency summaries (extTable/extPurePrefixes); unreviewed externals are listed in the evidence as assumptions.",
    "interprocedural write-effect (purity) analysis over SSA with root-based aliasing", "3/C12"),
  "C02": ("other",
-   "Decides the structural clauses: provenance of every byte string reaching an output buffer in the encoder closure (~200 sinks: constant / blessed escaper / nested MarshalJSON / numeric-instant-duration text with constant format; string fields, receivers' own bytes, %s-formatted strings and non-escaping helpers are findings where the raw bytes first enter; parameters resolved at call sites); the escaper's tables mark no control byte, quote or backslash safe and are consulted; member names are compile-time constant terms; no encoder emits one member name twice on one path; every field is written by the writer kind its Go type calls for, instants with the RFC 3339 layout; every encoder returns nil or an opened-and-closed buffer. ~1240 obligations. NOT decided: comma placement for all set/unset combinations, NaN/Inf, invalid UTF-8 representation.",
+   "Decides the structural clauses: provenance of every byte string reaching an output buffer in the encoder closure (~200 sinks: constant / blessed escaper / nested MarshalJSON / numeric-instant-duration text with constant format; string fields, receivers' own bytes, %s-formatted strings and non-escaping helpers are findings where the raw bytes first enter; parameters resolved at call sites); the escaper's tables mark no control byte, quote or backslash safe and are consulted; member names are compile-time constant terms; no encoder emits one member name twice on one path; every field is written by the writer kind its Go type calls for, instants with the RFC 3339 layout; every encoder returns nil or an opened-and-closed buffer; (grammar) every one of the 25 MarshalJSON methods is interpreted path-sensitively over SSA with the buffer's state kept as the stack of a JSON parser over tokens: on every path and for every combination of set/unset properties each write keeps the buffer a prefix of a JSON text (separators, colons, quotes, brackets, roll-backs), every non-empty result is exactly one complete value, and a float is written only under !IsNaN && !IsInf; (escaper) the lazy-copy cursor discipline of stringBytes (cursor == scan position after every escape, untouched otherwise, flush before every escape and before the closing quote) and its escape table (short escapes decode to the byte they replace, \\u00XX nibble order, \\u202X only for U+2028/9). ~1280 obligations. NOT decided: the representation of invalid UTF-8 (replaced by U+FFFD), implementations of json.Marshaler outside the package (assumed to return nothing or one JSON value).",
    "Trusted: go/ssa, tables.go; encoding/json.Marshal and the copied escaper stringBytes escape per RFC 8259 given their tables; nested MarshalJSON outputs are valid inductively.",
-   "byte-provenance (taint) analysis of output-buffer sinks + constant-table and duplicate-name rules", "3/C02"),
+   "byte-provenance (taint) analysis of output-buffer sinks + path-sensitive abstract interpretation of the encoders against a JSON-grammar typestate + constant-table, duplicate-name and escaper-loop rules", "3/C02, 8.4"),
  "C06": ("other",
-   "Decides structural necessary conditions for text to survive both codecs byte for byte: text already decoded by the JSON parser (fastjson GetStringBytes/StringBytes) is never handed to a JSON parser or a quote-stripping unmarshal method again, and never passes a byte-rewriting function (built on bytes/strings Replace*/Trim*/...) on its way into the stored value; the stored text reaches the escaper unrewritten; the gob forms put tag and text into the key and value slots and read them back from the same slots. Rewriters/re-parsers are discovered structurally. NOT decided: equality for concrete strings, the escaper's correctness beyond its tables (C02).",
+   "Decides structural necessary conditions for text to survive both codecs byte for byte: text already decoded by the JSON parser (fastjson GetStringBytes/StringBytes) is never handed to a JSON parser or a quote-stripping unmarshal method again, and never passes a byte-rewriting function (built on bytes/strings Replace*/Trim*/...) on its way into the stored value; the stored text reaches the escaper unrewritten; the gob forms put tag and text into the key and value slots and read them back from the same slots. Rewriters/re-parsers are discovered structurally. The escaper itself is decided structurally (cursor/flush discipline on every way round its loop, final flush, escape table: a dropped `start = i`, a missing flush or a wrong escape letter is a finding). NOT decided: equality for concrete strings as a relation on values.",
    "Trusted: go/ssa; fastjson GetStringBytes returns the decoded string value.",
-   "typestate / taint flow of decoded text on SSA (re-parse and rewrite sinks) + slot pairing", "3/C06"),
+   "typestate / taint flow of decoded text on SSA (re-parse and rewrite sinks) + slot pairing + phi-edge/dominance rules for the escaper loop", "3/C06, 8.4"),
  "C04": ("other",
-   "Decides structural clauses of decoder totality over the decode closure D (~400 package functions reachable from the 73 Unmarshal*/GobDecode entry points found by signature): every index/slice expression in D is in bounds — the Go compiler's prove pass reports which bounds checks it could not eliminate and each such site inside D must be discharged by the checker's symbolic range rules on SSA, else it is a finding; D has no explicit panic, single-result type assertion or division by a non-constant; every loop in D is a range loop or a counted loop with constant step towards an invariant bound; every cycle of the call graph among input-carrying functions contains a descent to a strictly smaller sub-value (depth bounded by fastjson's nesting limit and the input length); every make in D is sized by a constant or an existing length. NOT decided: panics inside dependencies, nil dereference of non-item pointers, quadratic de-duplication time, the follow-up-operations clause beyond C20/C12.",
+   "Decides structural clauses of decoder totality over the decode closure D (~400 package functions reachable from the 73 Unmarshal*/GobDecode entry points found by signature): every index/slice expression in D is in bounds — the Go compiler's prove pass reports which bounds checks it could not eliminate and each such site inside D must be discharged by the checker's symbolic range rules on SSA, else it is a finding; D has no explicit panic, single-result type assertion or division by a non-constant; every loop in D is a range loop or a counted loop with constant step towards an invariant bound; every cycle of the call graph among input-carrying functions contains a descent to a strictly smaller sub-value (depth bounded by fastjson's nesting limit and the input length); every make in D is sized by a constant or an existing length; the operand-swapping self-call of ItemsEqual (on the decode path through Append/Contains) is guarded by a predicate proven antisymmetric over all pairs of the 34 dynamic item kinds (decision tree of the guard over pure atoms x feasibility from the abstract interpreter), so the two orders cannot call each other forever. NOT decided: panics inside dependencies, nil dereference of non-item pointers, quadratic de-duplication time, the follow-up-operations clause beyond C20/C12.",
    "Trusted: the Go compiler's prove pass for sites it reports proven; go/ssa; c04.go range rules; fastjson MaxDepth.",
-   "compiler prove pass (BCE report) + symbolic range rules on SSA + loop-shape, recursion-descent and allocation-size rules", "3/C04"),
+   "compiler prove pass (BCE report) + symbolic range rules on SSA + loop-shape, recursion-descent, swap-guard antisymmetry and allocation-size rules", "3/C04, 8.4"),
 }
 
 NOT_YET = "check not yet built in this round (planned, see DESIGN.md section 3); not claimed until it runs clean"
